@@ -20,6 +20,9 @@ pub enum Extra {
     TrueKey,
     /// an unrelated valid key supplied where the pattern does not pre-share one
     OtherKey,
+    /// psks are supplied with set_psk only after the call that needs them has failed (MissingPsk): a failed
+    /// read must not make a key visible, a failed write must not lose one
+    LatePsk,
 }
 
 fn cfg_for(proto: &Proto, extra: Extra) -> Config {
@@ -30,7 +33,7 @@ fn cfg_for(proto: &Proto, extra: Extra) -> Config {
         if c.rs_pub[i].is_none() {
             let peer_sk = key_bytes(if s.is_init() { 2 } else { 1 });
             match extra {
-                Extra::None => {},
+                Extra::None | Extra::LatePsk => {},
                 Extra::TrueKey => c.rs_pub[i] = proto.dh.pubkey(&peer_sk),
                 Extra::OtherKey => c.rs_pub[i] = proto.dh.pubkey(&key_bytes(9)),
             }
@@ -45,6 +48,7 @@ fn ops_for(proto: &Proto, mode: Mode, faults: bool) -> Vec<Op> {
     if !faults {
         return ops;
     }
+    let _ = proto;
     // failing calls around every honest read: the reported key must survive them
     let mut out = vec![];
     for op in ops {
@@ -119,12 +123,39 @@ pub fn run(tier: Tier) -> i32 {
                     cases.push((p.clone(), x, m, false));
                 }
                 cases.push((p.clone(), x, Mode::TT, true));
+                if !p.psks.is_empty() && x == Extra::None {
+                    // every psk withheld from one side until the message that needs it has failed once
+                    cases.push((p.clone(), Extra::LatePsk, Mode::TS, false));
+                }
             }
         }
     }
     cases.par_iter().for_each(|(p, x, m, f)| {
-        let cfg = cfg_for(p, *x);
-        let ops = ops_for(p, *m, *f);
+        let mut cfg = cfg_for(p, *x);
+        let mut ops = ops_for(p, *m, *f);
+        if *x == Extra::LatePsk {
+            for s in SIDES {
+                for q in &p.psks {
+                    cfg.psks[s.idx()][usize::from(*q)] = None;
+                }
+            }
+            let mut out = vec![];
+            for op in ops {
+                match &op {
+                    Op::HsWrite { side, .. } | Op::HsRead { side, .. } => {
+                        // first attempt fails with MissingPsk when this message needs a psk; then supply all of
+                        // this side's psks and repeat (the repeat is the genuine step)
+                        out.push(op.clone());
+                        for q in &p.psks {
+                            out.push(Op::SetPsk { side: *side, loc: usize::from(*q), klen: 32 });
+                        }
+                        out.push(op.clone());
+                    },
+                    _ => out.push(op),
+                }
+            }
+            ops = out;
+        }
         let (v, points, some) = check(&cfg, &ops);
         ctx.add(&ctx.evaluations, 1);
         ctx.add(&ctx.transitions, points);
